@@ -137,6 +137,7 @@ def consts(p, **kw):
         Ready=tla_set([]), SeparateDrain="TRUE", AllowOrphan="FALSE",
         Window_CloseWithOpenWriters="FALSE", CloseModes=tla_set(["graceful", "cancel"]),
         LateOpen=tla_set(w["id"] for w in p["writers"] if w["late"]),
+        TimerRearm="TRUE", SleepForever="FALSE",
     )
     d.update(kw)
     lines = ["  %s = %s" % (k, v) for k, v in d.items()]
@@ -221,6 +222,16 @@ def design(ctx, thorough):
     # as-is window: DB.Close with open writers starves them (db.go documents it)
     go("window", design_cast(["w1"], ["s1"], [["k2"]], k12, 2, 0), props="WritersProgress", expect="temporal",
        deadlock=False, Ready=tla_set(["s1"]), Window_CloseWithOpenWriters="TRUE", CloseModes=tla_set(["graceful"]))
+    # one always-ready streamer next to TWO streamers whose consumers may stall for good, at the same
+    # time: every outlet of a frame's fan-out times out on its own, the ready one gets everything and
+    # writers keep going ...
+    mx = design_cast(["w1"], ["s1", "s2", "s3"], [["k2"]], k12, 4, 0)
+    go("mixed", mx, props="WritersProgress ReadyEventually OpenCompletes", deadlock=False, Ready=tla_set(["s1"]),
+       CloseModes=tla_set([]), SleepForever="TRUE")
+    # ... vacuity: with one timeout budget per frame (timer not re-armed) the relay parks behind the
+    # second stalled outlet: the ready streamer starves and writers block
+    go("norearm", mx, props="WritersProgress ReadyEventually", expect="temporal", deadlock=False, Ready=tla_set(["s1"]),
+       CloseModes=tla_set([]), SleepForever="TRUE", TimerRearm="FALSE")
     if thorough:
         go("ta", design_cast(["w1"], ["s1", "s2"], [["k1"], ["k2"]], k12, 2, 1), Ready=tla_set(["s1"]),
            CloseModes=tla_set(["graceful"]))
